@@ -10,7 +10,7 @@ RULE = ("is_prime: every n in [-5, 2^20) in the thorough tier (quick: [-5, 6000)
         "published strong pseudoprimes to the first k prime bases (psi_1..psi_12), Carmichael numbers, p*q for consecutive primes, "
         "1229/1231/1229^2 boundary, 2^k +- small for k at the round-table thresholds (with the recorded int(math.log(n,2))), random "
         "odd n of 21..1400 bits; next_prime on [-3, 3000) + boundaries + random; factorization on [-2, 3000 | 20000) + prime powers, "
-        "p*q around 1229^2, large prime cofactors; gcd/lcm on [0,12]^3 + signed/large tuples in both calling conventions (one-argument form as list, tuple, generator, iter, map, reversed, set, frozenset, range, dict view), empty and "
+        "p*q around 1229^2, large prime cofactors, products of close primes above the table (all consecutive pairs below 2000, gaps 2/4/6 up to 6*10^4, twin primes near 10^6; p*q, p^2*q, p*q^2, p^3*q, c*p*q); gcd/lcm on [0,12]^3 + signed/large tuples in both calling conventions (one-argument form as list, tuple, generator, iter, map, reversed, set, frozenset, range, dict view), empty and "
         "single arguments; a case is distinct by its operation line; non-trivial = all")
 ASSUMPTIONS = [
     "C16x (deprecated helpers, not anchored by any property): phi/carmichael equal Nat.totient / Mathlib's Carmichael function given "
@@ -218,6 +218,37 @@ def dead_gcd2():
     raise RuntimeError("fallback gcd2 not found")
 
 
+def gap_products(ctx):
+    """structured n for the odd-divisor phase of factorization: products of primes ABOVE the table that are close together
+    (twin primes, gaps 2, 4, 6, ...), p^k*q with q slightly above p, and small multiples of those"""
+    rng = ctx.rng
+    sv = sieve(20000 if ctx.quick else 60000)
+    ps = [i for i in range(1230, len(sv)) if sv[i]]
+    out = []
+    pairs = list(zip(ps, ps[1:]))
+    near = [(p, q) for (p, q) in pairs if p < 2000]                       # every consecutive pair just above 1229
+    gaps = [(p, q) for (p, q) in pairs if q - p in (2, 4, 6)]
+    rng.shuffle(gaps)
+    for p, q in near + gaps[:40 if ctx.quick else 600]:
+        out += [p * q, p * p * q, p * q * q]
+        c = rng.choice([2, 3, 4, 6, 35, 1229, 2 * 1229])
+        out.append(c * p * q)
+    for p, q in gaps[:10 if ctx.quick else 100]:
+        out += [p ** 3 * q, p * q * rng.choice(ps[:50])]
+    # twin primes / small gaps up to ~10^6
+    base = 10 ** 6 - rng.randrange(0, 5 * 10 ** 5)
+    found, x = 0, base | 1
+    while found < (6 if ctx.quick else 40):
+        if ref_is_prime(x):
+            for g in (2, 4, 6):
+                if ref_is_prime(x + g):
+                    out += [x * (x + g), 2 * x * (x + g)]
+                    found += 1
+                    break
+        x += 2
+    return out
+
+
 def correspond(ctx):
     from ecdsa import numbertheory as nt
     # which variants are live on this interpreter
@@ -250,6 +281,7 @@ def correspond(ctx):
            1231 * 1231 * 1237 * 1237, 2047 * 1373653 if not ctx.quick else 2047 * 1231, 1373653, 25326001, 3215031751, 561 * 1231,
            1729 * 1229]
     ns += [ctx.rng.getrandbits(ctx.rng.choice([20, 30, 40])) for _ in range(40 if ctx.quick else 400)]
+    ns += gap_products(ctx)
     for n in ns:
         add_lg(c, nt, "factorization", n, lambda: nt.factorization(n), fmt_pairs, "small" if n < 20000 else "structured")
     c.run()
@@ -400,7 +432,7 @@ def search(ctx):
     # factorization
     for n in list(range(-2, 4000 if ctx.quick else 40000)) + [1229 ** 2, 1229 * 1231, 1231 * 1237, 1231 ** 2, 1231 ** 3, 2 ** 40, 3 ** 25,
                                                               (2 ** 31 - 1) * 1231, (2 ** 31 - 1) * 2, 1237 * 1249 * 1259, 2047 * 1231, 1373653, 25326001] + \
-            [ctx.rng.getrandbits(ctx.rng.choice([24, 34, 40])) for _ in range(30 if ctx.quick else 300)]:
+            [ctx.rng.getrandbits(ctx.rng.choice([24, 34, 40])) for _ in range(30 if ctx.quick else 300)] + gap_products(ctx):
         n_eval += 1
         b = check_fact(nt, n)
         ctx.hist("search", "factorization")
